@@ -62,8 +62,12 @@ def reindex(ctx, shape, pos, lkind, k, form='list', fill='nan', raise_error=Fals
     r = ctx.call(f)
     found = [find(old, q) for q in new]
     absent = any(p is None for p in found)
-    if raise_error and absent and not method:
+    if raise_error and absent:        # documented: raises whenever a requested label is not on the axis (with or without method=)
         return ctx.done(r == ('exc', 'IndexError'), r[1] if r[0] != 'ok' else ctx.observe(r[1]))
+    if raise_error and method == 'right':
+        # searchsorted(side='right') sends an existing label to its right neighbour, which the found / not-found test then
+        # reports as missing: the statement does not say which of the two options wins for labels that are on the axis
+        return ctx.done(True, r[1] if r[0] != 'ok' else ctx.observe(r[1]))
     if r[0] != 'ok':
         return ctx.done(False, r[1])
     res = r[1]
@@ -173,6 +177,19 @@ def templates():
             for n, k in ((1, 1), (2, 2), (3, 1), (3, 2)):
                 add('method-%s-%s-n%d-k%d' % (method, lk, n, k), 'reindex', cost=2, shape=[n], pos=0, lkind=lk, k=k, method=method)
         add('method-%s-U' % method, 'reindex', cost=2, shape=[3], pos=0, lkind='U', k=1, method=method)
+    for method in ('left', 'right'):
+        add('raise-error-method-%s' % method, 'reindex', cost=2, shape=[3], pos=0, lkind='i', k=2, raise_error=True, method=method)
+        # int axis asked for real labels (and the reverse): the neighbour is the neighbour among the real numbers
+        for lk, qk in (('i', 'f'), ('f', 'i')):
+            for n, k in ((2, 1), (3, 2)):
+                add('method-%s-%s-query-%s-n%d-k%d' % (method, lk, qk, n, k), 'reindex', cost=2, shape=[n], pos=0, lkind=lk, k=k, method=method, qkind=qk)
+    # the new labels given as an Axis object naming any dimension
+    for shape in ([2, 3], [3, 2], [2, 2, 3]):
+        for pos in range(len(shape)):
+            if shape[pos] < 2:
+                continue
+            add('nd-axisobj-%s-pos%d' % ('x'.join(map(str, shape)), pos), 'reindex', cost=3, shape=shape, pos=pos, lkind='iU'[pos % 2], k=2, form='axis', fill='sym' if pos % 2 else 'nan')
+    add('nd-axisobj-method', 'reindex', cost=3, shape=[2, 3], pos=1, lkind='i', k=2, form='axis', method='left')
     # N-d: axis position and how it is named
     for shape in ([2, 3], [3, 2], [2, 2, 3], [2, 3, 2], [3, 1, 2]):
         for pos in range(len(shape)):
